@@ -134,6 +134,14 @@ func (bf *Filter) matches(data []byte) bool {
 		return false
 	}
 
+	// A filter-load message may carry an empty bit array together with a
+	// non-zero hash function count; the modulo in hash would then divide by
+	// zero (CVE-2013-5700).  Like Bitcoin Core, treat it as matching
+	// everything.
+	if len(bf.msgFilterLoad.Filter) == 0 {
+		return true
+	}
+
 	// The bloom filter does not contain the data if any of the bit offsets
 	// which result from hashing the data using each independent hash
 	// function are not set.  The shifts and masks below are a faster
@@ -190,6 +198,11 @@ func (bf *Filter) MatchesOutPoint(outpoint *wire.OutPoint) bool {
 // This function MUST be called with the filter lock held.
 func (bf *Filter) add(data []byte) {
 	if bf.msgFilterLoad == nil {
+		return
+	}
+
+	// Nothing can be added to an empty bit array (see matches).
+	if len(bf.msgFilterLoad.Filter) == 0 {
 		return
 	}
 
